@@ -461,3 +461,33 @@ func H_forRange(argc int) {
 	}
 	verifAssert(out == a+"|"+b, "C02: range loop does not run over start, start+step, ... up to the limit")
 }
+
+// H_callNames: how a {call} names its target: relative (.x), fully qualified, through an alias
+// (last segment of the aliased namespace), into a sub-namespace of an aliased namespace, and a
+// namespace whose name equals the alias-relative spelling; each callee prints its own tag and the
+// param it is given (a symbolic byte).
+func H_callNames(v int) {
+	calls := []struct{ call, want string }{
+		{"{call .loc}{param p: $x /}{/call}", "loc:"},
+		{"{call a.b.c.t}{param p: $x /}{/call}", "abc:"},
+		{"{call c.t}{param p: $x /}{/call}", "abc:"},
+		{"{call c.d.t}{param p: $x /}{/call}", "abcd:"},
+		{"{call a.b.c.d.t}{param p: $x /}{/call}", "abcd:"},
+		{"{call e.t}{param p: $x /}{/call}", "xe:"},
+		{"{call e.f.t}{param p: $x /}{/call}", "xef:"},
+		{"{call q.r.t}{param p: $x /}{/call}", "qr:"},
+	}
+	lib := func(ns, tag string) string {
+		return "{namespace " + ns + "}\n/** @param p */\n{template .t autoescape=\"false\"}\n" + tag + ":{$p}\n{/template}\n"
+	}
+	main := "{namespace m}\n{alias a.b.c}\n{alias x.e}\n/** @param x */\n{template .main autoescape=\"false\"}\n" + calls[v].call + "\n{/template}\n" +
+		"/** @param p */\n{template .loc autoescape=\"false\"}\nloc:{$p}\n{/template}\n"
+	// (a namespace literally named like an alias-relative spelling must not capture aliased calls)
+	tofu := verifMustCompile(main, lib("a.b.c", "abc"), lib("a.b.c.d", "abcd"), lib("x.e", "xe"), lib("x.e.f", "xef"), lib("q.r", "qr"), lib("c.d", "cd"), lib("f", "f"))
+	x := verifString(1)
+	verifAssume(x[0] >= 'a' && x[0] <= 'z')
+	out, err := verifRender(tofu, "m.main", data.Map{"x": data.String(x)})
+	verifObserve("out", out)
+	verifAssert(err == nil, "C02: call failed")
+	verifAssert(out == calls[v].want+x, "C02: a call reached another template than the one it names")
+}
